@@ -49,6 +49,10 @@ func VerifyNameErrorNSEC(msg *dns.Msg, nsecSet []dns.RR) error {
 		qname = dname
 	}
 
+	if nsecBelowCut(nsecSet, qname) {
+		return ErrNSECBadDelegation
+	}
+
 	var covering *dns.NSEC
 	for _, rr := range nsecSet {
 		nsec := rr.(*dns.NSEC)
@@ -81,6 +85,35 @@ func VerifyNameErrorNSEC(msg *dns.Msg, nsecSet []dns.RR) error {
 		}
 	}
 	return ErrNSECMissingCoverage
+}
+
+// nsecDelegationBitmap reports the bitmap of a zone cut seen from the parent:
+// NS without SOA. Such an "ancestor delegation" NSEC speaks for the parent
+// only. RFC 6840 §4.1: it MUST NOT be used to assume non-existence of any
+// RRs below that zone cut — every type at its owner other than DS, and
+// every name below its owner.
+func nsecDelegationBitmap(bitmap []uint16) bool {
+	return typesSet(bitmap, dns.TypeNS) && !typesSet(bitmap, dns.TypeSOA)
+}
+
+// nsecBelowCut reports whether some NSEC of the set places name strictly
+// below a zone cut or a DNAME: its owner is a proper ancestor of name and
+// its bitmap says delegation (NS, no SOA) or DNAME. Canonical order sorts
+// those descendants directly after the owner, so the record's interval
+// "covers" them all — while the signer that made it holds nothing there
+// (the child zone does) or redirects the whole subtree (RFC 6672 §5.3.2).
+// Neither is a denial.
+func nsecBelowCut(nsecSet []dns.RR, name string) bool {
+	for _, rr := range nsecSet {
+		nsec, ok := rr.(*dns.NSEC)
+		if !ok || !nsecNextBelow(name, nsec.Header().Name) {
+			continue
+		}
+		if nsecDelegationBitmap(nsec.TypeBitMap) || typesSet(nsec.TypeBitMap, dns.TypeDNAME) {
+			return true
+		}
+	}
+	return false
 }
 
 // closestEncloserFromNSEC derives the closest encloser of qname from the
@@ -165,8 +198,21 @@ func VerifyNODATANSEC(msg *dns.Msg, nsecSet []dns.RR) error {
 				return ErrNSECBadDelegation
 			}
 
+			// The mirror image for every other type: at a zone cut the
+			// parent-side NSEC (NS, no SOA) lists only what the parent
+			// holds there. Everything else at that owner — the child's
+			// apex A, MX, TXT … — lives in the child zone, which this
+			// record says nothing about (RFC 6840 §4.1).
+			if q.Qtype != dns.TypeDS && nsecDelegationBitmap(nsec.TypeBitMap) {
+				return ErrNSECBadDelegation
+			}
+
 			return nil
 		}
+	}
+
+	if nsecBelowCut(nsecSet, qname) {
+		return ErrNSECBadDelegation
 	}
 
 	// Wildcard NODATA (RFC 4035 §3.1.3.4): when qname has no exact
